@@ -316,7 +316,7 @@ def process_capped(run, scenarios, base, caps, procs, bp, name):
         capped = [dict(sc, cap=cap, tag=f"{sc['tag']}:cap{cap}") for sc in scenarios]
         replies = run_driver(capped, procs)
         diff = [i for i, (a, b) in enumerate(zip(replies, base)) if a != b]
-        for rp in replies:
+        for rp in base:          # measured on the default-capacity recording (never full)
             for per in (rp or {}).get("out", []):
                 if len(per) >= 3 * cap:
                     bp["arrivals_closing_ge_3cap_groups"] += 1
